@@ -1,7 +1,7 @@
 PROP = dict(
         engine="accounts", harness="accounts", driver="drv_accounts",
         props=["Hostd.Props.C11"],
-        quick=dict(n=1600, len=50, shards=8, timeout=300),
+        quick=dict(n=1200, len=50, shards=8, timeout=300),
         thorough=dict(n=24000, len=80, shards=16, timeout=1500),
         # monitors / mismatch fields of the shared `accounts` engine that belong to C11
         flag_filter=r"^(c11\.|c04\.res$|funding_rows_sum|per_contract_conserved|moved_eq_debit|no_negative|credit_recorded)",
